@@ -7,6 +7,8 @@
 pub mod alloc;
 pub mod cli;
 pub mod dd;
+pub mod dict;
+pub mod edge;
 pub mod json;
 pub mod report;
 pub mod rng;
